@@ -139,6 +139,47 @@ def scenarios(tier: str) -> List[Dict[str, Any]]:
             out.append(dict(tc=tc, grace=grace, flip=flip, pre=pre,
                             leave=[[how, "D"], [how, "E"], ev_send("P", fr(tc, P.MT_CLIENT_SET_NAME, P.P_NAME.pack(b"pee"), src_mod_id=IDS["P"]))], orders=True,
                             leavers=[("D", "connected"), ("E", "connected")], label=f"write-info-delivery-two/{how}"))
+        # the leaver has a subscription history behind it: every sequence of requests up to a length bound, then every way of leaving
+        hist_ops = [(P.MT_SUBSCRIBE, T1), (P.MT_SUBSCRIBE, T2), (P.MT_SUBSCRIBE, ALL), (P.MT_UNSUBSCRIBE, T1), (P.MT_UNSUBSCRIBE, ALL),
+                    (P.MT_PAUSE_SUBSCRIPTION, T1), (P.MT_PAUSE_SUBSCRIPTION, ALL), (P.MT_RESUME_SUBSCRIPTION, T1), (P.MT_RESUME_SUBSCRIPTION, ALL)]
+        first_env = (tc, grace, flip) == envs[0]
+        maxlen = (2 if first_env else 0) if tier == "quick" else (4 if first_env else 3)
+        hways = ("fin", "DISCONNECT") if tier == "quick" else ("fin", "rst", "DISCONNECT", "mid", "uncover")
+        for n in range(1, maxlen + 1):
+            for seq in itertools.product(range(len(hist_ops)), repeat=n):
+                pre = position_events(tc, "D", "connected")
+                for i in seq:
+                    pre.append(ev_send("D", fr(tc, hist_ops[i][0], P.p_sub(hist_ops[i][1]), src_mod_id=IDS["D"])))
+                    pre.append(["settle"])
+                f = out_frames(tc, "D")
+                for wy in hways:
+                    fins = []
+                    orders = False
+                    if wy in ("fin", "rst"):
+                        leave = [[wy, "D"]]
+                    elif wy == "DISCONNECT":
+                        leave = [ev_send("D", f["DISCONNECT"])]
+                        fins = ["D"]
+                    elif wy == "mid":
+                        leave = [ev_send("D", f["DATA"][:50]), ["rst", "D"]]
+                    else:
+                        leave = [["rst", "D"], ev_send("P", fr(tc, T1, b"uncover", src_mod_id=IDS["P"]))]
+                        orders = True
+                    out.append(dict(tc=tc, grace=grace, flip=flip, pre=pre, leave=leave, orders=orders, leavers=[("D", "connected")],
+                                    label=f"history/{'.'.join(str(i) for i in seq)}/{wy}", then_fin=fins))
+        # leave, come back in some position, leave again
+        if tier == "thorough":
+            f = out_frames(tc, "D")
+            lways = {"fin": [["fin", "D"]], "rst": [["rst", "D"]], "DISCONNECT": [ev_send("D", f["DISCONNECT"]), ["settle"], ["fin", "D"]],
+                     "mid": [ev_send("D", f["DATA"][:50]), ["rst", "D"]]}
+            for p1, p2 in itertools.product(POSITIONS, repeat=2):
+                for w1, w2 in itertools.product(lways, repeat=2):
+                    if p1 == "accepted" and w1 in ("DISCONNECT", "mid") or p2 == "accepted" and w2 in ("DISCONNECT", "mid"):
+                        continue
+                    pre = position_events(tc, "D", p1) + lways[w1] + [["settle"]] + position_events(tc, "D", p2)
+                    lv = [e for e in lways[w2] if e != ["settle"] and e != ["fin", "D"]] if w2 == "DISCONNECT" else lways[w2]
+                    out.append(dict(tc=tc, grace=grace, flip=flip, pre=pre, leave=lv, orders=False, leavers=[("D", p2)],
+                                    label=f"again/{p1}:{w1}->{p2}:{w2}", then_fin=["D"] if w2 == "DISCONNECT" else []))
         # two leavers in the same round
         ways = ["fin", "rst", "DISCONNECT", "mid"]
         ppos = ("subscribed", "suball", "logger") if tier == "thorough" else ("subscribed", "suball")
